@@ -17,6 +17,7 @@ What this check does on every run:
 import ast
 import json
 import re
+import time
 from collections import Counter
 from pathlib import Path
 
@@ -89,22 +90,14 @@ def generate(ctx):
 
 
 # ------------------------------------------------------------------------------------------ corpus
-def load_corpus(ctx):
-    progs = []
-    for f in sorted((ctx.dir / "corpus").glob("builder_*.json")):
-        for c in json.loads(f.read_text()):
-            progs.append(tie.from_source(c["src"], c.get("returns_none", True), "corpus", c.get("name", f.name)))
-    return progs
-
-
 def run_tie(ctx):
-    progs = load_corpus(ctx)
-    n_fixed = len(progs)
-    hist = Counter()
-    for prof, n in (TIE_QUICK if ctx.quick else TIE_THOROUGH).items():
-        ps, h = tie.make_programs(ctx.seed, ctx.tier, n, prof)
-        progs += ps
-        hist.update(h)
+    corpus = []
+    for f in sorted((ctx.dir / "corpus").glob("builder_*.json")):
+        corpus += json.loads(f.read_text())
+    gen = json.loads(ctx.impl("gen_cases.py", {"mode": "tie", "seed": ctx.seed, "tier": ctx.tier, "corpus": corpus,
+                                               "profiles": TIE_QUICK if ctx.quick else TIE_THOROUGH}))
+    progs, hist = gen["progs"], gen["hist"]
+    n_fixed = len(corpus)
     impl = tie.run_impl(ctx, progs)
     model = tie.run_model(ctx, progs, "m")
     stat = Counter()
@@ -147,10 +140,13 @@ def run_tie(ctx):
                    {"program": p["src"], "problem": im["span_problem"], "error": im["err"], "replay": REPLAY_BUILDER})
     crashes = [i for i, im in enumerate(impl) if not im["ok"] and isinstance(im["err"], str)
                and (im["err"].startswith("Crash:") or im["err"].startswith("Internal:") or im["err"] == "Unencodable")]
-    for i in crashes[:MAX_REPORTS]:
+    crashes.sort(key=lambda i: len(progs[i]["src"]))
+    seen_cls = set()
+    for i in crashes:
         p, im = progs[i], impl[i]
-        if im["err"] == "Unencodable":
+        if im["err"] == "Unencodable" or (im["err"], im.get("msg")) in seen_cls:
             continue
+        seen_cls.add((im["err"], im.get("msg")))
         ctx.report("builder-crash:" + p["src"], "counterexample",
                    "the real CFGBuilder raises a non-user exception on a syntactically valid function",
                    {"program": p["src"], "returns_none": p["returns_none"], "exception": im["err"], "message": im.get("msg"),
@@ -177,30 +173,12 @@ def run_tie(ctx):
 
 # ------------------------------------------------------------------------------------------ search
 def run_search(ctx):
-    import mutate
-    import templates
-    r = vlib.rng(ctx.seed, f"C02/search/{ctx.tier}")
-    n = SEARCH_QUICK if ctx.quick else SEARCH_THOROUGH
-    progs, meta = [], []
-    # corpus first: regression programs given by exact text
+    corpus = []
     for f in sorted((ctx.dir / "corpus").glob("search_*.json")):
-        for c in json.loads(f.read_text()):
-            progs.append({"id": f"c{len(progs)}", "src": c["src"]})
-            meta.append({"kind": "corpus", "template": c.get("name", f.name), "desc": c.get("what", "")})
-    n_corpus = len(progs)
-    for t in templates.TEMPLATES:
-        progs.append({"id": f"t{len(progs)}", "src": t["src"]})
-        meta.append({"kind": "template", "template": t["name"], "desc": ""})
-    n_templates = len(templates.TEMPLATES)
-    per = max(1, n // n_templates)
-    seen_src = {p["src"] for p in progs}
-    for t in templates.TEMPLATES:
-        for m in mutate.mutants(t, r, per):
-            if m["src"] in seen_src:
-                continue
-            seen_src.add(m["src"])
-            progs.append({"id": f"m{len(progs)}", "src": m["src"]})
-            meta.append({"kind": m["kind"], "template": t["name"], "desc": m["desc"]})
+        corpus += json.loads(f.read_text())
+    gen = json.loads(ctx.impl("gen_cases.py", {"mode": "search", "seed": ctx.seed, "tier": ctx.tier, "corpus": corpus,
+                                               "n": SEARCH_QUICK if ctx.quick else SEARCH_THOROUGH}))
+    progs, meta, n_corpus, n_templates = gen["progs"], gen["meta"], gen["n_corpus"], gen["n_templates"]
     d = ctx.scratch / "search"
     d.mkdir(exist_ok=True)
     out = ctx.impl("impl_search.py", {"dir": str(d), "programs": progs, "compile": True, "shrink": True, "timeout_s": 30},
@@ -218,7 +196,8 @@ def run_search(ctx):
             # a template that is no longer accepted: report as such (not a property violation by itself unless FAIL)
             outcome["template-not-accepted"] += 1
         if rec["outcome"] == "FAIL":
-            text = rec.get("shrunk_src") or p["src"]
+            # corpus programs are already minimal: their identity is their exact text
+            text = p["src"] if m["kind"] == "corpus" else (rec.get("shrunk_src") or p["src"])
             key = "search:" + text
             if key not in fails:
                 fails[key] = {"program": text, "original_program": p["src"], "mutation": m, "stage": rec["stage"],
@@ -227,17 +206,20 @@ def run_search(ctx):
                               "expected": "accepted, or GuppyError whose diagnostic renders with all spans inside the decorated source",
                               "replay": REPLAY_SEARCH}
     # report: known findings are matched by exact key; group the rest by crash site so that one defect gives one line
+    # One defect gives one line: failing inputs are grouped by crash signature = (stage, exception class,
+    # innermost guppylang frame, exception message with digits/quoted names masked).  A group that contains a
+    # listed known finding (matched by the exact text of its corpus program) is reported as that known finding;
+    # every other group is reported once, by its smallest program.
     by_site = {}
     for key, det in fails.items():
-        if ctx.is_known(key):
-            ctx.report(key, "counterexample", "known", det)
-            continue
-        site = (det["stage"], det["exception"], _site(det.get("traceback") or ""))
+        site = (det["stage"], det["exception"], _site(det.get("traceback") or ""), _mask(det.get("reason") or ""))
         by_site.setdefault(site, []).append((len(det["program"]), key, det))
     for site, lst in sorted(by_site.items(), key=lambda kv: str(kv[0])):
         lst.sort(key=lambda t: (t[0], t[1]))
-        _, key, det = lst[0]
-        det["same_crash_site_programs"] = len(lst)
+        known = [t for t in lst if ctx.is_known(t[1])]
+        _, key, det = (known or lst)[0]
+        det["same_crash_signature_programs"] = len(lst)
+        det["crash_signature"] = list(site)
         ctx.report(key, "counterexample", f"{det['exception']} escapes from {det['stage']} ({site[2]})", det)
     samples = []
     for want in ("rejected", "accepted", "FAIL"):
@@ -250,6 +232,10 @@ def run_search(ctx):
             "outcome_histogram": dict(outcome), "mutation_kind_histogram": dict(kinds),
             "distinct_error_classes_reached": len(diag), "error_class_histogram": dict(diag.most_common()),
             "distinct_failing_inputs": len(fails), "distinct_crash_sites": len(by_site), "samples": samples}
+
+
+def _mask(msg: str) -> str:
+    return re.sub(r"`[^`]*`|'[^']*'|\d+", "_", msg)[:160]
 
 
 def _site(tb: str) -> str:
@@ -273,11 +259,14 @@ def run(ctx):
             detail["meaning"] = ("the expression checker's set of InternalGuppyError visitors changed; Ast.simple (the spec "
                                  "side of builder_output_simple) no longer describes it")
         ctx.report("proof-broken:" + str(info["failed"]), "proof-broken", str(info["failed"]), detail, found_input=False)
+    t_props = round(time.time() - ctx.t0, 1)
     model_ok = all((vlib.COQ / "C02" / f"{m}.vo").exists() for m in ("Builder", "Encode"))
     tie_cov = {"skipped": "model files do not compile"}
     if model_ok:
         tie_cov = run_tie(ctx)
+    t_tie = round(time.time() - ctx.t0, 1)
     search_cov = run_search(ctx)
+    t_search = round(time.time() - ctx.t0, 1)
     evaluations = tie_cov.get("programs", 0) + search_cov["programs"]
     cov = vlib.proof_coverage(
         info, "make -f Makefile.C02 C02/Props.vo && coqc C02/Props.v (Print Assumptions)",
@@ -294,5 +283,6 @@ def run(ctx):
               "compiles; non-trivial+distinct = accepted programs with pairwise different CFG token lists longer than 40 tokens. "
               "search: mutants of the templates; counted as distinct non-trivial = number of distinct diagnostic classes reached"),
         samples=tie_cov.get("samples", []) + search_cov["samples"],
-        builder_tie=tie_cov, search=search_cov)
+        builder_tie=tie_cov, search=search_cov,
+        phase_end_seconds={"proofs": t_props, "builder_tie": t_tie, "search": t_search})
     return ctx.finish(LEVEL, cov, ["Coq kernel", "repo_shim", "differential harness", "mutation search is bounded testing"])
